@@ -351,7 +351,7 @@ impl Run {
         }
         let worker = new[0];
         if trace::is_active() {
-            trace::register_worker(worker, self.stepped);
+            trace::register_worker(worker, self.stepped, no);
         }
         trace::mark(Mark::OpenReturned(no));
         self.n_inst += 1;
